@@ -71,6 +71,7 @@ let () =
           | "8" -> localA M822 b e | "1" -> localA M5321 b e | "2" -> localA M5322 b e
           | "3" -> local6531A g b e
           | "4" -> ipv4A b O e | "6" -> ipv6A b O e | "P" -> ipaddrA b O e
+          | "S" -> specialA b e
           | _ -> ascii_domainA g.uscore b e) in
         let rec go k = (match call (firstn k full) with
           | FaultA i -> let i = int_of_nat i in if i + 1 > List.length full then out "BEYOND\n" else go (i + 1)
